@@ -463,9 +463,15 @@ func genComposite(t *rapid.T, numGlyphs int) *mglyph {
 	if rapid.IntRange(0, 2).Draw(t, "hasInstr") == 0 {
 		c.HasInstr = true
 		c.Instr = genInstr(t, false)
-		c.Comps[n-1].Flags |= refglyf.WeHaveInstructions
-		// the flag may also be repeated on earlier components
-		if n > 1 && rapid.IntRange(0, 3).Draw(t, "instrFlagEarly") == 0 {
+		// the flag is usually on the last component; it may be repeated on
+		// earlier ones, or be carried by an earlier component only
+		switch k := rapid.IntRange(0, 7).Draw(t, "instrFlagPlacement"); {
+		case n == 1 || k <= 4:
+			c.Comps[n-1].Flags |= refglyf.WeHaveInstructions
+		case k <= 6:
+			c.Comps[n-1].Flags |= refglyf.WeHaveInstructions
+			c.Comps[rapid.IntRange(0, n-2).Draw(t, "instrFlagAt")].Flags |= refglyf.WeHaveInstructions
+		default:
 			c.Comps[rapid.IntRange(0, n-2).Draw(t, "instrFlagAt")].Flags |= refglyf.WeHaveInstructions
 		}
 	}
